@@ -383,29 +383,27 @@ tx_outs:\n{tx_outs}
         return big_endian_to_int(h256)
 
     def hash_prevouts(self):
-        if self._hash_prevouts is None:
-            all_prevouts = b""
-            all_sequence = b""
-            for tx_in in self.tx_ins:
-                all_prevouts += tx_in.prev_tx[::-1] + int_to_little_endian(
-                    tx_in.prev_index, 4
-                )
-                all_sequence += tx_in.sequence.serialize()
-            self._hash_prevouts = hash256(all_prevouts)
-            self._hash_sequence = hash256(all_sequence)
+        # recomputed on every call: the transaction may have been edited
+        all_prevouts = b""
+        all_sequence = b""
+        for tx_in in self.tx_ins:
+            all_prevouts += tx_in.prev_tx[::-1] + int_to_little_endian(
+                tx_in.prev_index, 4
+            )
+            all_sequence += tx_in.sequence.serialize()
+        self._hash_prevouts = hash256(all_prevouts)
+        self._hash_sequence = hash256(all_sequence)
         return self._hash_prevouts
 
     def hash_sequence(self):
-        if self._hash_sequence is None:
-            self.hash_prevouts()  # this should calculate self._hash_prevouts
+        self.hash_prevouts()  # this calculates self._hash_sequence
         return self._hash_sequence
 
     def hash_outputs(self):
-        if self._hash_outputs is None:
-            all_outputs = b""
-            for tx_out in self.tx_outs:
-                all_outputs += tx_out.serialize()
-            self._hash_outputs = hash256(all_outputs)
+        all_outputs = b""
+        for tx_out in self.tx_outs:
+            all_outputs += tx_out.serialize()
+        self._hash_outputs = hash256(all_outputs)
         return self._hash_outputs
 
     def sig_hash_bip143(
@@ -474,45 +472,41 @@ tx_outs:\n{tx_outs}
         return big_endian_to_int(hash256(s))
 
     def sha_prevouts(self):
-        if self._sha_prevouts is None:
-            all_prevouts = b""
-            all_amounts = b""
-            all_script_pubkeys = b""
-            all_sequence = b""
-            for tx_in in self.tx_ins:
-                all_prevouts += tx_in.prev_tx[::-1] + int_to_little_endian(
-                    tx_in.prev_index, 4
-                )
-                all_amounts += int_to_little_endian(tx_in.value(self.network), 8)
-                all_script_pubkeys += tx_in.script_pubkey(self.network).serialize()
-                all_sequence += tx_in.sequence.serialize()
-            self._sha_prevouts = sha256(all_prevouts)
-            self._sha_amounts = sha256(all_amounts)
-            self._sha_script_pubkeys = sha256(all_script_pubkeys)
-            self._sha_sequences = sha256(all_sequence)
+        # recomputed on every call: the transaction may have been edited
+        all_prevouts = b""
+        all_amounts = b""
+        all_script_pubkeys = b""
+        all_sequence = b""
+        for tx_in in self.tx_ins:
+            all_prevouts += tx_in.prev_tx[::-1] + int_to_little_endian(
+                tx_in.prev_index, 4
+            )
+            all_amounts += int_to_little_endian(tx_in.value(self.network), 8)
+            all_script_pubkeys += tx_in.script_pubkey(self.network).serialize()
+            all_sequence += tx_in.sequence.serialize()
+        self._sha_prevouts = sha256(all_prevouts)
+        self._sha_amounts = sha256(all_amounts)
+        self._sha_script_pubkeys = sha256(all_script_pubkeys)
+        self._sha_sequences = sha256(all_sequence)
         return self._sha_prevouts
 
     def sha_amounts(self):
-        if self._sha_amounts is None:
-            self.sha_prevouts()  # this should calculate self._sha_amounts
+        self.sha_prevouts()  # this calculates self._sha_amounts
         return self._sha_amounts
 
     def sha_script_pubkeys(self):
-        if self._sha_script_pubkeys is None:
-            self.sha_prevouts()  # this should calculate self._sha_script_pubkeys
+        self.sha_prevouts()  # this calculates self._sha_script_pubkeys
         return self._sha_script_pubkeys
 
     def sha_sequences(self):
-        if self._sha_sequences is None:
-            self.sha_prevouts()  # this should calculate self._sha_sequences
+        self.sha_prevouts()  # this calculates self._sha_sequences
         return self._sha_sequences
 
     def sha_outputs(self):
-        if self._sha_outputs is None:
-            all_outputs = b""
-            for tx_out in self.tx_outs:
-                all_outputs += tx_out.serialize()
-            self._sha_outputs = sha256(all_outputs)
+        all_outputs = b""
+        for tx_out in self.tx_outs:
+            all_outputs += tx_out.serialize()
+        self._sha_outputs = sha256(all_outputs)
         return self._sha_outputs
 
     def sig_hash_bip341(self, input_index, ext_flag=0, hash_type=SIGHASH_DEFAULT):
